@@ -6,6 +6,9 @@
 
 #include "../engine/mc_common.hpp"
 #include "../engine/view_oracle.hpp"
+#ifdef CMP_FANCY
+#include "../engine/fancy_ptr.hpp"
+#endif
 
 namespace multi = boost::multi;
 using vm::idx;
@@ -91,7 +94,11 @@ bool with_rep(Val const& x, int r, F&& f) {
 		switch(r) {
 			case R_ARRAY: { multi::array<int, D> a(exts); fill(a, x); f(a); return true; }
 			case R_STATIC: { multi::static_array<int, D> a(exts); fill(a, x); f(a); return true; }
+#ifdef CMP_FANCY   // C11: array_ref over a user-defined pointer with provenance
+			case R_REF: { std::vector<int> buf(static_cast<std::size_t>(n + 1)); multi::array_ref<int, D, fancy::ptr<int>> a(exts, fancy::make(buf.data(), n)); fill(a, x); f(a); return true; }
+#else
 			case R_REF: { std::vector<int> buf(static_cast<std::size_t>(n + 1)); multi::array_ref<int, D> a(exts, buf.data()); fill(a, x); f(a); return true; }
+#endif
 			case R_TRANSPOSED_STORAGE: {
 				if(D < 2 || n == 0) { return false; }
 				std::vector<idx> rs(x.ext); std::rotate(rs.begin(), rs.end() - 1, rs.end());  // storage extents = unrotated logical extents
@@ -146,6 +153,9 @@ static void nocompile(Ctx const& c, char const* op) {
 	auto owning = [](int r) { return r == R_ARRAY || r == R_STATIC || r == R_SHORT_ARRAY; };
 	std::string cls;
 	if(is_short(c.ra) != is_short(c.rb) && std::string(op) != "==" && std::string(op) != "!=") { cls = "ordering-between-different-element-types"; }   // one class per (rank, operator)
+#ifdef CMP_FANCY
+	else if((c.ra == R_REF) != (c.rb == R_REF) && std::string(op) != "==" && std::string(op) != "!=") { cls = "ordering-between-different-pointer-types"; }   // the property promises ==/!= across pointer types, ordering only within one
+#endif
 	else if(D == 0 && (owning(c.ra) || owning(c.rb))) { cls = "owning-0D-array-operand"; }
 	else { cls = std::string(rep_name[c.ra]) + (c.ca ? " const" : "") + " vs " + rep_name[c.rb] + (c.cb ? " const" : ""); }
 	std::string k = "D" + std::to_string(D) + "|" + op + "|" + cls + "|does-not-compile";
@@ -201,6 +211,10 @@ int main(int argc, char** argv) {
 			}
 			if(mc::R.samples.size() < 4 && a.ext != b.ext && prod(a.ext) >= 2 && prod(b.ext) >= 2 && (g_pairs % 37) == 0) { mc::R.sample(mc::J().s("lhs", vstr(a)).s("rhs", vstr(b)).n("representation_pairs", static_cast<long long>(rps.size())).s("operators", "== != < <= > >= x constness of either side").str()); }
 		} }
+#ifdef CMP_FANCY
+		mc::R.add("fancy_dereferences", fancy::g.deref);
+		if(fancy::g.oob_deref || fancy::g.null_deref || fancy::g.null_arith) { mc::R.violation("D" + std::to_string(D) + "|fancy-pointer|provenance", mc::J().s("harness", "cmpmc").s("replay", "fancy").s("detail", fancy::g.first).str()); }
+#endif
 		mc::R.add("evaluations", g_evals); mc::R.add("pairs", g_pairs); mc::R.add("distinct_nontrivial", g_nontrivial);
 		mc::R.note("D=" + std::to_string(D) + ": logical values=" + std::to_string(vals.size()) + " ordered pairs=" + std::to_string(g_pairs) + " representation pairs=" + std::to_string(rps.size()) + " x4 constness");
 		mc::R.emit(stdout);
